@@ -131,6 +131,9 @@ def oracle_mntm_check(m, w, ys, end, n, info=None):
         if not level:
             break
         want = Counter(_mkey(s, t, blank) for (s, t) in level)
+        if info is not None:
+            info["maxlevel"] = max(info.get("maxlevel", 0), len(level))
+            info["depth"] = depth
         block = ys[i:i + len(level)]
         got = Counter(block)
         if len(block) == len(level):
@@ -192,6 +195,8 @@ def _describe(kind, m, w, n):
 
 
 def check_dtm(ctx: Ctx, m: DTM, w: str, n: int, origin: str):
+    if E.gave_up():
+        return None
     drv = ctx.driver(DRV)
     enc, st = E.enc_dtm(m)
     ys, end = E.observe(m.read_input_stepwise(w), n)
@@ -226,6 +231,8 @@ def check_dtm(ctx: Ctx, m: DTM, w: str, n: int, origin: str):
 
 
 def check_ntm(ctx: Ctx, m: NTM, w: str, n: int, origin: str):
+    if E.gave_up():
+        return None
     drv = ctx.driver(DRV)
     enc, st = E.enc_ntm(m)
     ys, end = E.observe(m.read_input_stepwise(w), n)
@@ -260,6 +267,8 @@ def check_ntm(ctx: Ctx, m: NTM, w: str, n: int, origin: str):
 
 
 def check_mntm(ctx: Ctx, m: MNTM, w: str, n: int, origin: str):
+    if E.gave_up():
+        return None
     drv = ctx.driver(DRV)
     enc, st = E.enc_mntm(m)
     ys, end = E.observe(m.read_input_stepwise(w), n)
@@ -279,6 +288,10 @@ def check_mntm(ctx: Ctx, m: MNTM, w: str, n: int, origin: str):
             wrong.append(f"crash {end[6:]}")
         else:
             wrong += oracle_mntm_check(m, w, got, end, n, info)
+    if info.get("maxlevel", 0) >= 2:
+        ctx.stat("mntm_level_with_2+_configurations")
+    if info.get("depth", 0) >= 3:
+        ctx.stat("mntm_depth_3+")
     if info.get("left"):
         ctx.stat("mntm_head_left_of_cell0")
     if info.get("right"):
@@ -306,6 +319,8 @@ def model_verdict(ctx: Ctx, cmd: str, enc: str, w: str, n: int) -> str:
 
 def check_triple(ctx: Ctx, kw, table, w: str, n: int, origin: str):
     """The same deterministic table as DTM / NTM / one-tape MNTM: verdicts under a budget."""
+    if E.gave_up():
+        return None
     d, nt, mt = E.dtm_from(kw, table), E.ntm_from(kw, table), E.mntm1_from(kw, table)
     vd = E.verdict_of(E.observe(d.read_input_stepwise(w), n)[1])
     vn = E.verdict_of(E.observe(nt.read_input_stepwise(w), n + 1)[1])
@@ -314,7 +329,7 @@ def check_triple(ctx: Ctx, kw, table, w: str, n: int, origin: str):
     # (only for a machine whose own bounded run halted: never call an unbounded run blindly)
     for name, mach, v in (("DTM", d, vd), ("NTM", nt, vn), ("MNTM", mt, vm)):
         if v in ("accept", "reject"):
-            r = call(lambda: mach.accepts_input(w))
+            r = E.bounded_call(lambda: mach.accepts_input(w))
             if r != ("ok", v == "accept"):
                 ctx.prop_fail(f"{name}.accepts_input({w!r}) = {r}, step-by-step verdict {v}",
                               dict(kind="TRIPLE", machine=repr(d), word=w, n=n), None)
@@ -562,7 +577,7 @@ def run(ctx: Ctx):
                        f"1-tape MNTM, 8 next() calls; verdict triple with budget 14")
     # 2. shaped random
     budgets = [1, 2, 3, 6, 12, 25]
-    for _ in range(ctx.budget(500, 20000)):
+    for _ in range(ctx.budget(1200, 20000)):
         kw, table = E.rand_dtm_table(rng)
         d = E.dtm_from(kw, table)
         for _ in range(2):
@@ -570,16 +585,16 @@ def run(ctx: Ctx):
             n = rng.choice(budgets)
             check_dtm(ctx, d, w, n, "random_dtm")
             check_triple(ctx, kw, table, w, rng.choice([10, 30, 60]), "random_triple")
-    for _ in range(ctx.budget(500, 20000)):
+    for _ in range(ctx.budget(1500, 20000)):
         m = E.rand_ntm(rng)
         for _ in range(2):
             check_ntm(ctx, m, E.rand_input(rng, m), rng.choice([1, 2, 3, 5, 8]), "random_ntm")
-    for _ in range(ctx.budget(600, 25000)):
+    for _ in range(ctx.budget(2000, 25000)):
         m = E.rand_mntm(rng)
         for _ in range(2):
             check_mntm(ctx, m, E.rand_input(rng, m), rng.choice([1, 2, 4, 8, 16, 30]), "random_mntm")
     # 3. validation
-    validation_stream(ctx, ctx.budget(400, 12000))
+    validation_stream(ctx, ctx.budget(1000, 12000))
 
 
 def replay(ctx: Ctx, path: str) -> int:
